@@ -1,0 +1,14 @@
+//go:build verif
+
+package iavl
+
+// VerifYield, when set by the verification harness under /verif, is called at a few named
+// points of the commit, prune and read paths so that a test scheduler can park a goroutine
+// there. It exists only under the build tag "verif".
+var VerifYield func(point string)
+
+func verifYield(point string) {
+	if f := VerifYield; f != nil {
+		f(point)
+	}
+}
